@@ -134,3 +134,22 @@ func (tracker *TxTracker) VerifTxids() []bitcoin.Hash32 {
 	}
 	return out
 }
+
+// VerifClone deep-copies the mempool (for bounded-exhaustive search).
+func (memPool *MemPool) VerifClone() *MemPool {
+	memPool.mutex.Lock()
+	defer memPool.mutex.Unlock()
+	c := NewMemPool()
+	for k, v := range memPool.txs {
+		t := *v
+		t.outPoints = append([]wire.OutPoint(nil), v.outPoints...)
+		c.txs[k] = &t
+	}
+	for k, v := range memPool.inputs {
+		c.inputs[k] = append([]bitcoin.Hash32(nil), v...)
+	}
+	for k, v := range memPool.requests {
+		c.requests[k] = v
+	}
+	return c
+}
